@@ -5,7 +5,8 @@ Shared memory: the chain of nodes (a `List Int` of node values, index 0 = the du
 node; node `i`'s `next` pointer is `i+1` when that node exists and `nil` otherwise),
 the `head` and `tail` pointers (chain indices) and the `len` counter.
 Threads: one program counter per shared-memory access of `Push`, `Pop`, `Len`, in
-source order.  `step` performs exactly ONE access of one thread (atomic accesses and
+source order; `PopWait(d)` with `d < 0` is `Pop` in a `Gosched` loop (`popYield`), with
+`d = 0` it is exactly one `Pop` (positive durations — ticker-driven — are not modelled).  `step` performs exactly ONE access of one thread (atomic accesses and
 the two plain accesses of `Pop` to `node.value`); `runtime.Gosched()` is a yield step.
 
 The order of the two statements after the successful link CAS in `Push` is a
@@ -22,6 +23,10 @@ inductive Call where
   | push (v : Int)
   | pop
   | len
+  /-- `PopWait(d)`: `block = true` is `d < 0` (`Pop` in a `Gosched` loop until it succeeds),
+  `block = false` is `d = 0` (exactly one `Pop`).  Positive durations (ticker-driven
+  retries) are not modelled. -/
+  | popWait (block : Bool)
 deriving DecidableEq, Repr
 
 inductive Order where
@@ -52,6 +57,8 @@ inductive Pc where
   | popRead (n : Nat)                -- plain read of node n's value
   | popClear (n : Nat) (v : Int)     -- plain write node n's value = zero
   | popAdd (v : Int)                 -- AddInt64(&l.len, -1)
+  -- PopWait(d < 0): for { if v, ok := l.Pop(); ok { return v, ok }; runtime.Gosched() }
+  | popYield                         -- runtime.Gosched() after a failed Pop of PopWait(d<0)
   -- Len(): LoadInt64(&l.len)
   | lenLoad
 deriving DecidableEq, Repr
@@ -59,7 +66,13 @@ deriving DecidableEq, Repr
 structure Thread where
   pc : Pc
   prog : List Call
+  /-- the call the thread is executing (`none` when idle) -/
+  cur : Option Call
 deriving DecidableEq, Repr
+
+/-- the current call is `PopWait(d)` with `d < 0`: a failed `Pop` is retried after a
+`Gosched` instead of being returned -/
+def Thread.spin (th : Thread) : Bool := th.cur == some (.popWait true)
 
 structure State where
   chain : List Int
@@ -105,20 +118,29 @@ def start : Call → Pc
   | .push v => .pushLoadTail v
   | .pop => .popLoadHead
   | .len => .lenLoad
+  | .popWait _ => .popLoadHead
+
 
 /-- The current call returned: continue with the next call of the program. -/
 def Thread.finish (th : Thread) : Thread :=
   match th.prog with
-  | [] => { pc := .idle, prog := [] }
-  | c :: rest => { pc := start c, prog := rest }
+  | [] => { pc := .idle, prog := [], cur := none }
+  | c :: rest => { pc := start c, prog := rest, cur := some c }
 
-def mkThread (prog : List Call) : Thread := Thread.finish { pc := .idle, prog := prog }
+def mkThread (prog : List Call) : Thread :=
+  Thread.finish { pc := .idle, prog := prog, cur := none }
 
 def State.setPc (s : State) (i : Nat) (th : Thread) (pc : Pc) : State :=
   { s with threads := s.threads.set i { th with pc := pc } }
 
 def State.fin (s : State) (i : Nat) (th : Thread) : State :=
   { s with threads := s.threads.set i th.finish }
+
+/-- The inner `Pop` of thread `i` failed (performing access `acc`): `Pop`, `PopWait(0)`
+return `(zero, false)`; `PopWait(d < 0)` goes to its `runtime.Gosched()` and retries. -/
+def State.popFail (s : State) (i : Nat) (th : Thread) (acc : Acc) : State × Event :=
+  if th.spin then (s.setPc i th .popYield, ⟨i, acc, none⟩)
+  else (s.fin i th, ⟨i, acc, some (.pop 0 false)⟩)
 
 /-- One shared-memory access of thread `i`. -/
 def step (ord : Order) (s : State) (i : Nat) : State × Event :=
@@ -156,7 +178,7 @@ def step (ord : Order) (s : State) (i : Nat) : State × Event :=
     | .pushYield v => (s.setPc i th (.pushLoadTail v), ⟨i, .yield, none⟩)
     | .popLoadHead => (s.setPc i th (.popLoadTail s.head), ⟨i, .ldHead s.head, none⟩)
     | .popLoadTail h =>
-      if h = s.tail then (s.fin i th, ⟨i, .ldTail s.tail, some (.pop 0 false)⟩)
+      if h = s.tail then s.popFail i th (.ldTail s.tail)
       else (s.setPc i th (.popLoadNext h), ⟨i, .ldTail s.tail, none⟩)
     | .popLoadNext h =>
       let n : Option Nat := if h + 1 < s.chain.length then some (h + 1) else none
@@ -166,13 +188,14 @@ def step (ord : Order) (s : State) (i : Nat) : State × Event :=
         match n with
         | some n => ({ s with head := n }.setPc i th (.popRead n), ⟨i, .casHead h (some n) true, none⟩)
         | none => ({ s with crashed := true }.setPc i th .idle, ⟨i, .casHead h none true, some .panic⟩)
-      else (s.fin i th, ⟨i, .casHead h n false, some (.pop 0 false)⟩)
+      else s.popFail i th (.casHead h n false)
     | .popRead n =>
       match s.chain[n]? with
       | some v => (s.setPc i th (.popClear n v), ⟨i, .rdVal n v, none⟩)
       | none => ({ s with crashed := true }.setPc i th .idle, ⟨i, .none, some .panic⟩)
     | .popClear n v => ({ s with chain := s.chain.set n 0 }.setPc i th (.popAdd v), ⟨i, .wrVal n, none⟩)
     | .popAdd v => ({ s with len := s.len - 1 }.fin i th, ⟨i, .addLen (-1) (s.len - 1), some (.pop v true)⟩)
+    | .popYield => (s.setPc i th .popLoadHead, ⟨i, .yield, none⟩)
     | .lenLoad => (s.fin i th, ⟨i, .ldLen s.len, some (.len s.len)⟩)
 
 /-- Run a schedule (list of thread ids), collecting the events. -/
@@ -195,6 +218,8 @@ inductive SrcOp where
   | loadTail | loadNext | casNext | addLen (d : Int) | storeTail | gosched
   | loadHead | casHead | readVal | writeVal | loadLen
   | other (s : String)
+  -- control skeleton of `PopWait` (Gen/FactsC11 `popWaitOps`)
+  | cond (s : String) | loop | ret | callPop | ticker
 deriving DecidableEq, Repr
 
 def Acc.src : Acc → Option SrcOp
